@@ -12,6 +12,7 @@
 #include "evaluate.hpp"
 #include "tbprobe.hpp"
 #include "parameters.hpp"
+#include "harness/evalsanity.hpp"
 
 namespace sd {
 
